@@ -4,7 +4,6 @@ PROPS = {
     "C03": dict(
         modules=["common", "c03"],
         contracts=["parse_range"],
-        canary_contracts=["parse_range"],
         refute={"quick": [1, 2], "thorough": [0, 1, 2, 3]},
         native="c03",
         level="proof",
@@ -33,7 +32,6 @@ C02_CONTRACTS = ["generate_multipart", "judge_if_range",
 PROPS["C02"] = dict(
     modules=["common", "hdrs", "c03", "c02"],
     contracts=C02_CONTRACTS,
-    canary_contracts=["generate_multipart", "wsgi.handle_all", "asgi.fake_sendfile"],
     refute={"quick": [2], "thorough": [1, 2, 3]},
     native="c02",
     level="proof",
@@ -62,7 +60,6 @@ PROPS["C11"] = dict(
     modules=["common", "c11"],
     contracts=["ws.__init__", "ws.receive", "ws.send", "ws.accept", "ws.close", "ws.receive_text", "ws.receive_bytes",
                "ws.send_text", "ws.send_bytes", "ws.iter_text", "ws.iter_bytes"],
-    canary_contracts=["ws.receive", "ws.send"],
     refute={"quick": [3], "thorough": [2, 3, 4]},
     native="c11",
     level="proof",
